@@ -24,7 +24,7 @@ Viable    == HasRev(hist') \/ (Len(snaps') > 0 /\ Len(hist') < Depth) \/ Len(his
 
 GenNext ==
   /\ Len(hist) < Depth
-  /\ \/ \E c \in {m \in Mutators : m[1] \in OpKinds} : DoMut(c)
+  /\ \/ \E c \in {m \in Mutators(st) : m[1] \in OpKinds} : DoMut(c)
      \/ Snapshot
      \/ \E i \in 1..Len(snaps) : Revert(i)
      \/ "FIN" \in OpKinds /\ Finalise
@@ -46,8 +46,8 @@ Start3(i) == <<1 + ((Seed * 7919 + i * 10473) % 30268),
                1 + ((Seed * 104729 + i * 31) % 30306),
                1 + ((Seed * 13 + i * 7907) % 30322)>>
 Times(n, x) == [i \in 1..n |-> x]
-DeepOps == SetToSeq(Mutators) \o Times(9, <<"SNAP", 0, 0, 0>>) \o Times(8, <<"REV", 0, 0, 0>>)
-           \o Times(2, <<"FIN", 0, 0, 0>>) \o Times(1, <<"PRE", 2, 0, 0>>)
+DeepOps == SetToSeq(Mutators(st)) \o Times(12, <<"SNAP", 0, 0, 0>>) \o Times(11, <<"REV", 0, 0, 0>>)
+           \o Times(3, <<"FIN", 0, 0, 0>>) \o Times(1, <<"PRE", 2, 0, 0>>)
 
 DeepInit == /\ rng \in {Start3(i) : i \in 1..Runs}
             /\ start = 1 + (Draw(rng) % 3)
